@@ -14,6 +14,18 @@ Definition ecoords (nr nc : Z) (c : coords) : list Z :=
   ++ flat_map (fun i => flat_map (fun j => eQ (c_rho2 c i j) ++ eQ (c_dirx c i j) ++ eQ (c_diry c i j)) (zrange nc))
               (zrange nr).
 
+(* zernike(mask, j, normalize, rho, theta = 2 pi t) on the group ring; the square root is applied by
+   the harness: it receives the square of the factor *)
+Definition run_mode (L : nat) (j : Z) (normalize : bool) (pts : list (Qc * Qc * Qc)) : list Z :=
+  match noll_exact j with
+  | Ok mn =>
+      match zernike (S := GRS L) (fun _ => gr1 L) row_exact j normalize pts with
+      | Ok vs => 0 :: norm2 (fst mn) (snd mn) normalize :: elist (eK L) vs
+      | Err e => [1; errcode e]
+      end
+  | Err e => [1; errcode e]
+  end.
+
 Definition run (inp : list Z) : list Z :=
   match inp with
   | 1 :: lo :: cnt :: nil =>        (* closed form of Noll's ordering for lo <= j < lo + cnt *)
@@ -23,23 +35,21 @@ Definition run (inp : list Z) : list Z :=
       eresult epair (noll_exact j)
   | 3 :: Lz :: j :: nz :: rest =>   (* zernike(mask, j, normalize, rho, theta = 2 pi t) *)
       if Lz <=? 0 then emalformed else
-      let L := Z.to_nat Lz in
       match pall (plist ppt) rest with
-      | Some pts =>
-          let normalize := negb (nz =? 0) in
-          match noll_exact j with
-          | Ok mn =>
-              (* the square root is applied by the harness: it receives the square of the factor *)
-              match zernike (S := GRS L) (fun _ => gr1 L) row_exact j normalize pts with
-              | Ok vs => 0 :: norm2 (fst mn) (snd mn) normalize :: elist (eK L) vs
-              | Err e => [1; errcode e]
-              end
-          | Err e => [1; errcode e]
-          end
+      | Some pts => run_mode (Z.to_nat Lz) j (negb (nz =? 0)) pts
       | None => emalformed end
   | 4 :: rest =>                    (* zernike_coordinates(mask) *)
       match pall parrQ rest with
       | Some mask => eresult (ecoords (nr mask) (nc mask)) (zernike_coordinates mask)
+      | None => emalformed end
+  | 5 :: rest =>                    (* a history of masks (one buffer refilled in place): a pure function of each *)
+      match pall (plist parrQ) rest with
+      | Some masks => 0 :: flat_map (fun mask => eresult (ecoords (nr mask) (nc mask)) (zernike_coordinates mask)) masks
+      | None => emalformed end
+  | 6 :: Lz :: rest =>              (* a sequence of modes evaluated on the same caller-supplied nodes *)
+      if Lz <=? 0 then emalformed else
+      match pall (calls <- plist (ppair pZ pbool) ;; pts <- plist ppt ;; pret (calls, pts)) rest with
+      | Some (calls, pts) => 0 :: flat_map (fun jn => run_mode (Z.to_nat Lz) (fst jn) (snd jn) pts) calls
       | None => emalformed end
   | _ => emalformed
   end.
